@@ -632,6 +632,8 @@ def b_str(E, args, kw):
     if v is None:
         return "None"
     if isinstance(v, SInt):
+        if v.cells is not None and len(v.cells) == 1:
+            return sbin_or_str([v.cells[0]])          # str() of a 0/1 value: a binary character
         if v.lo is not None and v.hi is not None and 0 <= v.lo and v.hi <= 9:
             return SChr(v.term + 48)
         return SStr([StrOfInt(v)])
@@ -673,6 +675,26 @@ def b_int(E, args, kw):
         t = v.term
         if z3.is_app_of(t, z3.Z3_OP_TO_REAL):
             return SInt(t.arg(0))
+        # truncation towards zero; when the sign is implied by the path condition use the plain floor
+        try:
+            if not E.feasible_spec(t < 0):
+                k = z3.ToInt(t)
+                # ground instances of "floor is monotone" between the floor terms of this path: spares the
+                # integer solver an enumeration over the (possibly huge) range of t
+                reg = E.__dict__.setdefault("_floor_terms", {})
+                if reg.get("ps") is not E.ps:
+                    reg.clear()
+                    reg["ps"] = E.ps
+                    reg["terms"] = []
+                for (t2, k2) in reg["terms"]:
+                    E.ps.add(z3.Implies(t2 <= t, k2 <= k))
+                    E.ps.add(z3.Implies(t <= t2, k <= k2))
+                reg["terms"].append((t, k))
+                return SInt(k)
+            if not E.feasible_spec(t > 0):
+                return SInt(-z3.ToInt(-t))
+        except Exception:
+            pass
         return SInt(z3.If(t >= 0, z3.ToInt(t), -z3.ToInt(-t)))
     if v is None:
         raise PyExc("TypeError", "int() argument must be a string or a number, not 'NoneType'")
@@ -807,6 +829,19 @@ def _minmax(E, args, kw, is_min):
             return kw["default"]
         raise PyExc("ValueError", "min()/max() arg is an empty sequence")
     keys = [E.call(key, [x], {}) if key is not None else x for x in items]
+    if key is None and len(items) >= 8 and all(isinstance(E.force(x), (SReal, SInt, int, Fraction)) and
+                                               not isinstance(x, bool) for x in items):
+        # long numeric max / min: a fresh variable with its defining constraints (m bounds every item and
+        # equals one of them) instead of a chain of nested if-then-else terms - same meaning, flat for the solver
+        vals = [E.force(x) for x in items]
+        allint = all(isinstance(v, (int, SInt)) for v in vals)
+        E._mm_ctr = getattr(E, "_mm_ctr", 0) + 1
+        name = "%s_%d" % ("min" if is_min else "max", E._mm_ctr)
+        m = z3.Int(name) if allint else z3.Real(name)
+        terms = [to_z3_num(v)[0] if allint else to_real(v) for v in vals]
+        E.ps.add(z3.And(*[(m <= t) if is_min else (m >= t) for t in terms]))
+        E.ps.add(z3.Or(*[m == t for t in terms]))
+        return SInt(m) if allint else SReal(m)
     best = items[0]
     bestk = E.force(keys[0])
     import ast as _ast
@@ -1222,7 +1257,7 @@ def m_upper(E, s, a, k):
     if isinstance(s, str):
         return s.upper()
     if isinstance(s, SHex):
-        return SHex(s.cells, [True] * len(s))
+        return V.shex_or_str(s.cells, [True] * len(s))
     if isinstance(s, SBin):
         return s
     raise Unsupported("upper on %r" % type(s).__name__)
